@@ -852,4 +852,49 @@ def abelRowMatrix (P : M α) (m mc : Nat) : M α := fun c c' =>
 
 end Abel
 
+
+/-! ## Constructor metadata of the convolution classes: shapes, dtypes, error cases -/
+
+/-- the four dtypes the operators are used with -/
+inductive DT | f32 | f64 | c64 | c128
+deriving DecidableEq, Repr
+
+def DT.cx : DT → Bool | .c64 => true | .c128 => true | _ => false
+def DT.wide : DT → Bool | .f64 => true | .c128 => true | _ => false
+def DT.mk (cx wide : Bool) : DT := if cx then (if wide then .c128 else .c64) else (if wide then .f64 else .f32)
+
+/-- `jax.numpy.result_type` on these dtypes: complex if one is, double precision if one is -/
+def resultType (a b : DT) : DT := DT.mk (a.cx || b.cx) (a.wide || b.wide)
+
+/-- `np.broadcast_shapes(a, b)` (`none` = incompatible, `ValueError`), on the reversed (trailing-first) shapes -/
+def broadcastRev : List Nat → List Nat → Option (List Nat)
+  | [], b => some b
+  | a, [] => some a
+  | x :: a, y :: b =>
+      if x = y ∨ y = 1 then (broadcastRev a b).map (x :: ·)
+      else if x = 1 then (broadcastRev a b).map (y :: ·) else none
+
+def broadcastShapes (a b : List Nat) : Option (List Nat) := (broadcastRev a.reverse b.reverse).map List.reverse
+
+/-- what `CircularConvolve.__init__` declares: `(output_shape, output_dtype, real)`; `none` = `ValueError`
+    (`h_center` together with `h_is_dft`; `h` after padding not broadcastable against the input).  `hShape` is the shape
+    of `h`, whose trailing `ndims` axes are replaced by the input's when `h` is given in the signal domain. -/
+def circInit (hShape inShape : List Nat) (ndims : Option Nat) (hIsDft hasCenter : Bool) (hdt xdt : DT) :
+    Option (List Nat × DT × Bool) :=
+  let nd := ndims.getD inShape.length
+  if hIsDft && hasCenter then none else
+  let hdft := if hIsDft then hShape else hShape.take (hShape.length - nd) ++ inShape.drop (inShape.length - nd)
+  match broadcastShapes hdft inShape with
+  | none => none
+  | some out =>
+      let odt := if hIsDft then xdt else resultType hdt xdt
+      some (out, odt, !odt.cx)
+
+/-- `Convolve.__init__` / `ConvolveByX.__init__`: `(output_dtype)`; `none` = `ValueError` (`h.ndim ≠ len(input_shape)`,
+    unknown mode) -/
+def convInit (hNdim inNdim : Nat) (mode : String) (hdt xdt : DT) : Option DT :=
+  if hNdim ≠ inNdim then none
+  else if mode ≠ "full" ∧ mode ≠ "valid" ∧ mode ≠ "same" then none
+  else some (resultType xdt hdt)
+
 end Scico.LinOps
